@@ -641,16 +641,17 @@ def mcHeaderRows (cfg : Cfg) (m : M) (derived : Option Str) (src : Nat) : List R
   [{ kind := .deco, text := [], src := src }, { kind := .mcHeader, text := text, src := src },
    { kind := .deco, text := [], src := src }]
 
+/-- one comparison (ancestor vs a derived commit) of `paint_buffered_merge_conflict_lines` -/
+def mcPaintOne (cfg : Cfg) (m : M) (name : Option Str) (derived : List HLine) : M :=
+  let m2 := emit (direct m (mcHeaderRows cfg m name m.n))
+  emit { m2 with buf := m2.buf ++ m.mcAnc.map HLine.row ++ derived.map HLine.row }
+
 /-- `paint_buffered_merge_conflict_lines` (default decoration: box) -/
 def paintMergeConflict (cfg : Cfg) (m : M) (mp : MergeParents) : M :=
-  let bar (s : Str) : Row := { kind := .mcBar, text := s, src := m.n }
-  let m1 := direct (emit m) [bar cfg.mcBeginSymbol]
-  let one (m : M) (name : Option Str) (derived : List HLine) : M :=
-    let m2 := emit (direct m (mcHeaderRows cfg m name m.n))
-    emit { m2 with buf := m2.buf ++ m.mcAnc.map HLine.row ++ derived.map HLine.row }
-  let m2 := one m1 m1.mcNameOurs m1.mcOurs
-  let m3 := one m2 m2.mcNameTheirs m2.mcTheirs
-  let m4 := direct m3 [bar cfg.mcEndSymbol]
+  let m1 := direct (emit m) [{ kind := .mcBar, text := cfg.mcBeginSymbol, src := m.n }]
+  let m2 := mcPaintOne cfg m1 m1.mcNameOurs m1.mcOurs
+  let m3 := mcPaintOne cfg m2 m2.mcNameTheirs m2.mcTheirs
+  let m4 := direct m3 [{ kind := .mcBar, text := cfg.mcEndSymbol, src := m.n }]
   { m4 with mcOurs := [], mcAnc := [], mcTheirs := [], st := .hunkZero (.combined mp false) }
 
 def storeLine (cfg : Cfg) (m : M) (l : L) (c : MCCommit) (mp : MergeParents) (k : RowKind) :
@@ -766,17 +767,19 @@ def detectSource (line : Str) : Source :=
   else if startsWithAny line (Generated.diffUnifiedPrefixes.map String.toList) then .diffUnified
   else .unknown
 
+/-- arming of the plain-diff minus-line counter (see `Generated.Markers.prepareToCount`) -/
+def armCounter (m : M) (l : L) : M :=
+  match Markers.prepareToCount with
+  | some lit => if startsWith l.text lit then { m with counter := 0 } else m
+  | none => if m.source = .diffUnified then { m with counter := 0 } else m
+
+/-- source detection at the top of the `consume` loop body -/
+def stepInit (m : M) (l : L) : M :=
+  if m.source = .unknown then armCounter { m with source := detectSource l.text } l else m
+
 /-- one iteration of the `consume` loop -/
 def step (cfg : Cfg) (m : M) (l : L) : Except String M :=
-  let m1 :=
-    if m.source = .unknown then
-      let m' := { m with source := detectSource l.text }
-      let arm : Bool := match Markers.prepareToCount with
-        | some lit => startsWith l.text lit
-        | none => decide (m'.source = .diffUnified)
-      if arm then { m' with counter := 0 } else m'
-    else m
-  match chain cfg l Generated.handlerOrder m1 with
+  match chain cfg l Generated.handlerOrder (stepInit m l) with
   | .error e => .error e
   | .ok m2 => .ok { m2 with n := m2.n + 1 }
 
